@@ -189,7 +189,8 @@ def c15_pass(prefix: str) -> List[Dict[str, Any]]:
     # is exposed by either)
     for (t, po) in texts:
         for v in range(4):
-            for d in ([NOSEAT] if po else range(4)):
+            # (no declarer is the documented default of the parser, for any contract)
+            for d in ([NOSEAT] if po else list(range(4)) + [NOSEAT]):
                 R.add('contract.from_str', {'text': t, 'vul': v, 'decl': d},
                       lambda: cfrom(t, v, d))
     for d in range(4):
